@@ -83,6 +83,34 @@ theorem slice_wr_other (b src : Bytes) (off o w : Nat) (h : off + src.length ≤
   rw [wr_getElem? _ _ _ _ h]
   ite_omega
 
+theorem getElem?_of_slice {b src : Bytes} {off : Nat} (h : slice b off src.length = src) (i : Nat)
+    (hi : i < src.length) : b[off + i]? = src[i]? := by
+  have := congrArg (fun l => l[i]?) h
+  simp only [slice, List.getElem?_take, List.getElem?_drop, hi, if_true] at this
+  exact this
+
+/-- writing what is already there changes nothing -/
+theorem wr_self (b src : Bytes) (off : Nat) (hl : off + src.length ≤ b.length)
+    (h : slice b off src.length = src) : wr b off src = b := by
+  apply List.ext_getElem?
+  intro i
+  rw [wr_getElem? _ _ _ _ hl]
+  split
+  · rfl
+  · split
+    · have := getElem?_of_slice h (i - off) (by omega)
+      rw [← this]; congr 1; omega
+    · rfl
+
+/-- a second write to the same range wins -/
+theorem wr_wr_same (b s1 s2 : Bytes) (off : Nat) (hl : off + s1.length ≤ b.length) (hs : s2.length = s1.length) :
+    wr (wr b off s1) off s2 = wr b off s2 := by
+  apply List.ext_getElem?
+  intro i
+  rw [wr_getElem? _ _ _ _ (by rw [wr_length _ _ _ hl]; omega), wr_getElem? _ _ _ _ hl,
+    wr_getElem? _ _ _ _ (by omega)]
+  ite_omega
+
 /-! ### `save` in named pieces (the only place that unfolds `save`) -/
 
 /-- the header after the four preliminary setters of `save` -/
@@ -1415,5 +1443,159 @@ theorem addString_refines (b : SecBuf) (hI : b.Inv) (str : Bytes)
     · rw [v2, Spec.addStr_fst, if_neg h0]
     · rw [hcur, Spec.addStr_snd, if_neg h0, hl]
 
+
+/-! ### idempotence ingredients (C06) -/
+
+/-- in memory, or known to be unloadable: a further `get_data()` does nothing -/
+def SecBuf.Settled (b : SecBuf) : Prop := b.isLoaded = true ∨ b.canLoad = false
+
+theorem secGetData_settled (c : Cls) (tr : List Trans) (ls : LoadSt) (b : SecBuf) :
+    (secGetData c tr ls b).2.Settled := by
+  unfold secGetData SecBuf.Settled
+  split
+  · simp only
+    split
+    · rename_i hok; exact Or.inl (secLoadData_frame3 c tr ls b hok)
+    · exact Or.inr rfl
+  · rename_i hc
+    simp only [Bool.and_eq_true, Bool.not_eq_true', not_and, Bool.not_eq_true] at hc
+    cases hl : b.isLoaded with
+    | true => exact Or.inl rfl
+    | false => exact Or.inr (hc hl)
+
+theorem secGetData_id (c : Cls) (tr : List Trans) (ls : LoadSt) (b : SecBuf) (h : b.Settled) :
+    secGetData c tr ls b = (ls, b) := by
+  unfold secGetData
+  rcases h with h | h
+  · simp [h]
+  · simp [h]
+
+theorem allResident_settled (c : Cls) (tr : List Trans) (l : List SecBuf) (ls : LoadSt) (acc : List SecBuf)
+    (hacc : ∀ b ∈ acc, b.Settled) : ∀ b ∈ (allResident c tr l ls acc).1, b.Settled := by
+  induction l generalizing ls acc with
+  | nil => intro b hb; simp only [allResident, List.mem_reverse] at hb; exact hacc b hb
+  | cons a rest ih =>
+    unfold allResident
+    apply ih
+    intro b hb
+    rcases List.mem_cons.1 hb with h | h
+    · rw [h]; exact secGetData_settled c tr ls a
+    · exact hacc b h
+
+theorem allResident_id (c : Cls) (tr : List Trans) (l : List SecBuf) (ls : LoadSt) (acc : List SecBuf)
+    (hl : ∀ b ∈ l, b.Settled) : allResident c tr l ls acc = (acc.reverse ++ l, ls) := by
+  induction l generalizing ls acc with
+  | nil => simp [allResident]
+  | cons a rest ih =>
+    unfold allResident
+    rw [secGetData_id c tr ls a (hl a List.mem_cons_self)]
+    simp only
+    rw [ih ls (a :: acc) (fun b hb => hl b (List.mem_cons_of_mem _ hb))]
+    simp
+
+theorem residentForSave_id (c : Cls) (tr : List Trans) (l : List SecBuf) (ls : LoadSt) (acc : List SecBuf)
+    (hl : ∀ b ∈ l, b.Settled) : residentForSave c tr l ls acc = (acc.reverse ++ l, ls) := by
+  induction l generalizing ls acc with
+  | nil => simp [residentForSave]
+  | cons a rest ih =>
+    unfold residentForSave
+    have hr := ih ls (a :: acc) (fun b hb => hl b (List.mem_cons_of_mem _ hb))
+    split
+    · rw [secGetData_id c tr ls a (hl a List.mem_cons_self)]
+      simp only
+      rw [hr]; simp
+    · rw [hr]; simp
+
+theorem Placed.settled {c : Cls} {a b : SecBuf} (h : Placed c a b) (ha : a.Settled) : b.Settled := by
+  have e := h.frame.rest
+  unfold SecBuf.Settled at *
+  rw [e]; exact ha
+
+theorem FrameL.forall_right {α} {R : α → α → Prop} {P : α → Prop} {l l' : List α} (h : FrameL R l l')
+    (hp : ∀ a b, R a b → P a → P b) (hl : ∀ a ∈ l, P a) : ∀ b ∈ l', P b := by
+  intro b hb
+  obtain ⟨i, hi⟩ := List.getElem?_of_mem hb
+  have hlt : i < l.length := by
+    rw [← h.1]
+    rcases Nat.lt_or_ge i l'.length with h' | h'
+    · exact h'
+    · rw [List.getElem?_eq_none h'] at hi; cases hi
+  exact hp _ _ (h.2 i l[i] b (List.getElem?_eq_getElem hlt) hi) (hl _ (List.getElem_mem hlt))
+
+/-- `layout_sections_without_segments` without the accumulator -/
+def looseSpec (c : Cls) (segs : List Seg) : List SecBuf → Nat → BitVec 64 → List SecBuf × BitVec 64
+  | [], _, pos => ([], pos)
+  | s :: rest, i, pos =>
+    if withoutSegment segs i then
+      let pos1 := if lsws_need_align s.addrAlign pos then lsws_aligned pos s.addrAlign else pos
+      let s' := setOffset c s pos1
+      let pos2 := if lsws_occupies s'.stype then wsd_advance pos1 s'.size else pos1
+      ((s' :: (looseSpec c segs rest (i + 1) pos2).1), (looseSpec c segs rest (i + 1) pos2).2)
+    else ((s :: (looseSpec c segs rest (i + 1) pos).1), (looseSpec c segs rest (i + 1) pos).2)
+
+theorem layoutLoose_eq (c : Cls) (segs : List Seg) (l : List SecBuf) (i : Nat) (pos : BitVec 64) (acc : List SecBuf) :
+    layoutLoose c segs l i pos acc = (acc.reverse ++ (looseSpec c segs l i pos).1, (looseSpec c segs l i pos).2) := by
+  induction l generalizing i pos acc with
+  | nil => simp [layoutLoose, looseSpec]
+  | cons s rest ih =>
+    unfold layoutLoose looseSpec
+    split
+    · simp only
+      rw [ih]; simp
+    · rw [ih]; simp
+
+theorem setOffset_fields (c : Cls) (s : SecBuf) (p : BitVec 64) :
+    (setOffset c s p).stype = s.stype ∧ (setOffset c s p).size = s.size ∧ (setOffset c s p).addrAlign = s.addrAlign ∧
+    setOffset c (setOffset c s p) p = setOffset c s p := by
+  by_cases h : (s.index != 0) = true
+  · have e : setOffset c s p = { s with offset := truncA c p } := by unfold setOffset; rw [if_pos h]
+    have e' : setOffset c { s with offset := truncA c p } p = { s with offset := truncA c p } := by
+      unfold setOffset; rw [if_pos h]
+    rw [e, e']
+    exact ⟨rfl, rfl, rfl, rfl⟩
+  · have e : setOffset c s p = s := by unfold setOffset; rw [if_neg h]
+    rw [e, e]
+    exact ⟨rfl, rfl, rfl, rfl⟩
+
+theorem looseSpec_cons_true (c : Cls) (segs : List Seg) (s : SecBuf) (rest : List SecBuf) (i : Nat) (pos : BitVec 64)
+    (hw : withoutSegment segs i = true) :
+    looseSpec c segs (s :: rest) i pos =
+      ((setOffset c s (if lsws_need_align s.addrAlign pos then lsws_aligned pos s.addrAlign else pos) ::
+        (looseSpec c segs rest (i + 1)
+          (if lsws_occupies s.stype then
+            wsd_advance (if lsws_need_align s.addrAlign pos then lsws_aligned pos s.addrAlign else pos) s.size
+           else (if lsws_need_align s.addrAlign pos then lsws_aligned pos s.addrAlign else pos))).1),
+       (looseSpec c segs rest (i + 1)
+          (if lsws_occupies s.stype then
+            wsd_advance (if lsws_need_align s.addrAlign pos then lsws_aligned pos s.addrAlign else pos) s.size
+           else (if lsws_need_align s.addrAlign pos then lsws_aligned pos s.addrAlign else pos))).2) := by
+  obtain ⟨e1, e2, _, _⟩ := setOffset_fields c s
+    (if lsws_need_align s.addrAlign pos then lsws_aligned pos s.addrAlign else pos)
+  rw [looseSpec, if_pos hw]
+  simp only [e1, e2]
+
+theorem looseSpec_cons_false (c : Cls) (segs : List Seg) (s : SecBuf) (rest : List SecBuf) (i : Nat) (pos : BitVec 64)
+    (hw : ¬ withoutSegment segs i = true) :
+    looseSpec c segs (s :: rest) i pos =
+      ((s :: (looseSpec c segs rest (i + 1) pos).1), (looseSpec c segs rest (i + 1) pos).2) := by
+  rw [looseSpec, if_neg hw]
+
+/-- **the loose-section layout is idempotent**: it reads only type, size, alignment and index, none
+    of which it changes, and it re-derives the offsets it has stored -/
+theorem looseSpec_idem (c : Cls) (segs : List Seg) (l : List SecBuf) (i : Nat) (pos : BitVec 64) :
+    looseSpec c segs (looseSpec c segs l i pos).1 i pos = looseSpec c segs l i pos := by
+  induction l generalizing i pos with
+  | nil => rfl
+  | cons s rest ih =>
+    by_cases hw : withoutSegment segs i = true
+    · rw [looseSpec_cons_true c segs s rest i pos hw]
+      simp only
+      rw [looseSpec_cons_true c segs _ _ i pos hw]
+      obtain ⟨e1, e2, e3, e4⟩ := setOffset_fields c s
+        (if lsws_need_align s.addrAlign pos then lsws_aligned pos s.addrAlign else pos)
+      simp only [e1, e2, e3, e4, ih]
+    · rw [looseSpec_cons_false c segs s rest i pos hw]
+      simp only
+      rw [looseSpec_cons_false c segs _ _ i pos hw, ih]
 
 end ElfioVerif
